@@ -34,6 +34,8 @@ ALPHABET = [
     "MLST a", "MLST b", "MLST missing", "MLST b/z",
     "T:LIST a", "T:LIST c", "T:LIST b", "T:MLSD a",
     "CWD a", "CWD ..", "CWD b",
+    # an upload in two pieces with a stat of the same file (same control connection) between them
+    "M:STOR b|MLST b", "M:APPE b|MLST b", "M:STOR a/x|MLST a/x", "M:STOR new|MLST new",
 ]
 PREFIX = ["USER anonymous", "EPSV"]
 
@@ -49,14 +51,24 @@ def run_on(backend, hist):
             rig.ev(0, line)
         s = rig.sessions[0]
         for sym in hist:
-            transfer = sym.startswith("T:")
+            transfer = sym.startswith("T:") or sym.startswith("M:")
             line = sym[2:] if transfer else sym
+            mid = None
+            if sym.startswith("M:"):
+                line, mid = line.split("|")
             verb = line.partition(" ")[0].lower()
             if transfer:
                 rig.ev(0, "@data")
             r = rig.ev(0, line) or []
             codes = [c for c, _ in r]
-            if transfer and verb in ("stor", "appe") and codes and codes[-1][:1] == "1" and s.data is not None:
+            if mid is not None and codes and codes[-1][:1] == "1" and s.data is not None:
+                rig.ev(0, "@dsend " + PAYLOAD[:1].decode())
+                rm = rig.ev(0, mid) or []
+                rig.ev(0, "@dsend " + PAYLOAD[1:].decode())
+                r2 = rig.ev(0, "@dclose") or []
+                rig.collect()
+                codes += [c for c, _ in rm] + [c for c, _ in r2]
+            elif transfer and verb in ("stor", "appe") and codes and codes[-1][:1] == "1" and s.data is not None:
                 rig.ev(0, "@dsend " + PAYLOAD.decode())
                 r2 = rig.ev(0, "@dclose") or []
                 rig.collect()
